@@ -34,7 +34,7 @@ func init() {
 			"client side: hostile responses (mutated, truncated, reset) read by the real HostClient incl. redirects, Set-Cookie and Location parsing; only panics and hangs are judged there",
 			"a parse-level rejection is recognised as: last response on the connection is 400/413/408, no handler ran for it and Engine.Serve returned a non-nil error",
 		},
-		RequiredProbes: []string{"mut-flip", "mut-insert", "mut-delete", "mut-dup", "mut-token", "truncate", "rst", "rejected", "too-large", "too-large-multipart", "too-large-chunked", "hostile-chunk-size", "fs-route", "multipart", "cookie", "trailer", "recovery-engine", "default-engine", "client-side", "invalid-content-length", "trailer-zero-name", "huge-body", "router-mode", "route-request", "forwarded-prefix", "redirected"},
+		RequiredProbes: []string{"mut-flip", "mut-insert", "mut-delete", "mut-dup", "mut-token", "truncate", "rst", "rejected", "too-large", "too-large-multipart", "too-large-chunked", "hostile-chunk-size", "fs-route", "multipart", "cookie", "trailer", "recovery-engine", "default-engine", "client-side", "too-large-expect", "invalid-content-length", "trailer-zero-name", "huge-body", "router-mode", "route-request", "forwarded-prefix", "redirected"},
 	}
 }
 
@@ -318,6 +318,11 @@ func RunC03(ep *core.Episode) {
 				m.Chunked = true
 				m.ChunkSizes = splitChunks(tp, len(m.Body))
 				ep.Probe("too-large-chunked")
+			}
+			if (router || huge) && !m.Chunked && tp.Choose("expectlarge", 2) == 1 {
+				// (later modes only) the oversized body is announced with Expect: 100-continue
+				m.Headers = append(m.Headers, wire.Header{K: "Expect", V: "100-continue"})
+				ep.Probe("too-large-expect")
 			}
 			if len(m.Body) > 3000 && tooLargeAt < 0 && !huge {
 				tooLargeAt = i
